@@ -9,6 +9,7 @@ from vlib.layout import Layout
 from checks import c02_ast
 
 ID = 'C12'
+CONTRACTS = True     # icontract recording contracts ride along (vlib/contracts.py)
 LEVEL = 'exploration'
 RULE = ('histories of 2-10 inputs fed to ONE parser / SymtableCodeGen / JsonCodeGen / PySnmpCodeGen / '
         'MibCompiler instance, each element also processed by fresh instances; inputs mix valid modules '
